@@ -873,9 +873,8 @@ impl SetLen for std::io::BorrowedBuf<'static, u8> {
 #[cfg(feature = "arrayvec")]
 impl<const N: usize> SetLen for arrayvec::ArrayVec<u8, N> {
     unsafe fn set_len(&mut self, len: usize) {
-        if (**self).buf_len() < len {
-            unsafe { self.set_len(len) };
-        }
+        // (Also shrinks, like `Vec`: the grow-only policy lives in `advance_to`.)
+        unsafe { self.set_len(len) };
     }
 }
 
@@ -885,9 +884,8 @@ where
     [u8; N]: smallvec::Array<Item = u8>,
 {
     unsafe fn set_len(&mut self, len: usize) {
-        if (**self).buf_len() < len {
-            unsafe { self.set_len(len) };
-        }
+        // (Also shrinks, like `Vec`: the grow-only policy lives in `advance_to`.)
+        unsafe { self.set_len(len) };
     }
 }
 
